@@ -413,8 +413,8 @@ def run(chk):
     chk.function(FMT, "save_to_filename", "P")
     only = getattr(chk, "only", None)
     if not only or "proof" in only:
-        run_proof(chk)
-        run_syntactic(chk)
+        chk.guard(run_proof)
+        chk.guard(run_syntactic)
         chk.discharge(workers=1)
     for c in EXTERNAL_CONTRACTS:
         chk.assume("trusted external contract: " + c)
